@@ -616,6 +616,27 @@ func radialDistance(v ssa.Value, par *ssa.Parameter) bool {
 		b, _ := baseObject(call.Call.Args[0])
 		return b == par
 	}
+	// hypot(x, y) of the two ordinates of the argument (math.Hypot, or a helper introduced
+	// after the baseline that wraps it)
+	isHypot := name == "math.Hypot"
+	if cal := staticCallee(call); cal != nil && isNewHelper(cal) && len(call.Call.Args) == 2 {
+		eachCall(cal, func(ci ssa.CallInstruction) {
+			if calleeName(ci) == "math.Hypot" {
+				isHypot = true
+			}
+		})
+	}
+	if isHypot && len(call.Call.Args) == 2 {
+		ord := func(t ssa.Value) string {
+			base, path := baseObject(stripLoad(t))
+			if base == par && len(path) == 1 {
+				return path[0]
+			}
+			return ""
+		}
+		a, b := ord(call.Call.Args[0]), ord(call.Call.Args[1])
+		return a != "" && b != "" && a != b
+	}
 	if name != "carto.sqrt" && name != "math.Sqrt" {
 		return false
 	}
